@@ -56,12 +56,14 @@ def check(run):
         def bad(clause, exp, obs, t=None):
             run.mismatch(clause, t or tag, brief, exp, obs)
         try:
-            ef = ELFFile(io.BytesIO(data))
+            with core.guard(30):
+                ef = ELFFile(io.BytesIO(data))
         except Exception as ex:
             bad('open', 'ELFFile', 'exc:%s:%s' % (type(ex).__name__, ex))
             continue
         try:
-            _compare(run, ef, v, data, bad, voc_sht, voc_pt, voc_hdr, SEC_CLASS, SEG_CLASS)
+            with core.guard(120):
+                _compare(run, ef, v, data, bad, voc_sht, voc_pt, voc_hdr, SEC_CLASS, SEG_CLASS)
         except Exception as ex:
             import traceback
             bad('exception', 'no exception', 'exc:%s:%s @ %s' % (type(ex).__name__, ex, traceback.format_exc().splitlines()[-3].strip()))
